@@ -69,6 +69,8 @@ type Extra struct {
 	At   int    `json:"at"`
 	What string `json:"what"`
 	K    string `json:"k"`
+	Cmd  string   `json:"cmd"` // C06 (program mode, what=split): At counts the requests of this command type only (Commit, Prewrite, PessimisticLock, PessimisticRollback, BatchRollback, ResolveLock)
+	Ks   []string `json:"ks"`  // C06 (what=split): several split keys at once
 }
 type Scenario struct {
 	ID        string   `json:"id"`
@@ -528,6 +530,30 @@ func runProgram(sc *Scenario, e *env, out map[string]interface{}) {
 				x := x
 				if x.What == "reader" || x.What == "push_min_commit" {
 					g.plan.hooks[x.At] = func() { e.helper(x.What, x.K, 0) }
+				}
+				if x.What == "split" {
+					// C06: the region layout changes right before the request is delivered (the request was built for the old layout)
+					h := func() {
+						ks := x.Ks
+						if len(ks) == 0 {
+							ks = []string{x.K}
+						}
+						for _, k := range ks {
+							e.trace.add(Event{Kind: "note", Client: "c1", F: map[string]interface{}{"helper": "split", "k": k, "cmd": x.Cmd, "at": x.At}})
+							e.split(key(k))
+						}
+					}
+					if x.Cmd != "" {
+						if g.plan.cmdHooks == nil {
+							g.plan.cmdHooks = map[string]map[int]func(){}
+						}
+						if g.plan.cmdHooks[x.Cmd] == nil {
+							g.plan.cmdHooks[x.Cmd] = map[int]func(){}
+						}
+						g.plan.cmdHooks[x.Cmd][x.At] = h
+					} else {
+						g.plan.hooks[x.At] = h
+					}
 				}
 			}
 			g.plan.active.Store(true)
